@@ -61,6 +61,15 @@ Theorem C25_real_schedule :
 Proof. split; [exact buf_free_b_sound | exact settled_on_schedule]. Qed.
 Print Assumptions C25_real_schedule.
 
+(* programs with loop blocks (references crossing a loop boundary): the same check runs on the blocks
+   in program order, descending into the loop gates ([instr_blocks]); on a program that passes,
+   every block that does not use the slot -- inside or outside a loop -- leaves it alone *)
+Theorem C25_loop_schedule : forall groups h (p : prog),
+  refs_ordered_l p groups h = true ->
+  forall sg, In sg (flat_map instr_blocks (p_body p)) -> role sg h = 0%N -> buf_free sg h.
+Proof. intros groups h p H. exact (chain_ok_others_free groups h _ 0%N 0%N H). Qed.
+Print Assumptions C25_loop_schedule.
+
 (* non-vacuity: producer block, then a mutating group, then a reading group, then the consumer *)
 Example C25_example :
   let prod := {| sg_recv := []; sg_send := [(0%N, SFresh)]; sg_slots := [0%N];
